@@ -85,7 +85,7 @@ def run_c05(rep, tier, seed):
             distinct += 1
             # descriptor-preserving enumeration is only demanded for fully specified parities: a descriptor
             # with unspecified parity equals every descriptor over the same atoms (C04), so 'preserved' is ambiguous
-            fs = ref.fully_specified() or unambiguous(ref)
+            fs = ref.fully_specified()
             st, sc = (kind in ("SMG", "SCRG") and fs), (kind == "SCRG" and fs)
             ok, why = c05_case(ref, ref, None, st, sc)
             G["automorphisms"].case(ok, f"{name}: {why} {ref.describe()}", c05_body(ref, ref, None, st, sc), sample={"graph": name})
@@ -96,15 +96,13 @@ def run_c05(rep, tier, seed):
             o = rng.randrange(10**6)
             ok, why = c05_case(ref, rb, None, st, sc, None, o)
             G["renamed-copy"].case(ok, f"{name}: {why} {ref.describe()} vs {rb.describe()}", c05_body(ref, rb, None, st, sc, None, o))
-            if st and unambiguous(ref) and (ref.atom_stereo or ref.bond_stereo):
-                # the same graph with some parities erased: an unspecified descriptor equals every descriptor over the same atoms
+            if st and unambiguous(ref) and ref.atom_stereo:
+                # the same graph with the parity of one ATOM-centred descriptor erased: an unspecified descriptor equals every
+                # descriptor over the same atoms (C04); for an atom-centred descriptor in these graphs the atom set fixes the centre
                 re_ = rb.copy()
                 for kk in list(re_.atom_stereo)[:1]:
                     dd = re_.atom_stereo[kk]
                     re_.atom_stereo[kk] = (dd[0], dd[1], None)
-                for kk in list(re_.bond_stereo)[:1]:
-                    dd = re_.bond_stereo[kk]
-                    re_.bond_stereo[kk] = (dd[0], dd[1], None)
                 for x, y in ((ref, re_), (re_, ref)):
                     ok, why = c05_case(x, y, None, st, sc)
                     G["some-parities-unspecified-on-one-side"].case(ok, f"{name}: {why} {x.describe()} vs {y.describe()}", c05_body(x, y, None, st, sc))
